@@ -33,8 +33,8 @@ EXTENDS Integers, Sequences, FiniteSets, TLC, Json, IOUtils
 
 Traces == JsonDeserialize(IOEnv.TRACE_FILE)
 
-VARIABLES tid, l, act, upd, bad
-vars == <<tid, l, act, upd, bad>>
+VARIABLES tid, l, act, upd, bad, excused
+vars == <<tid, l, act, upd, bad, excused>>
 
 SeqSet(s) == {s[i] : i \in 1..Len(s)}
 T == Traces[tid]
@@ -58,6 +58,7 @@ Init == /\ tid \in 1..Len(Traces)
         /\ act = {}
         /\ upd = NoUpd
         /\ bad = {}
+        /\ excused = {}          \* tasks left stale by a structural-cycle update (known finding): excused until they run or are redefined
 
 Flag(S) == bad' = bad \cup {<<l, x>> : x \in S}
 Ev == T.events[l]
@@ -73,15 +74,17 @@ Step ==
   CASE e.ev = "Reg" ->
          /\ act' = act \cup {e.t}
          /\ Flag({})
+         /\ excused' = excused \ {e.t}
          /\ UNCHANGED upd
     [] e.ev = "Unreg" ->
          /\ act' = act \ {e.t}
          /\ Flag(IF e.t \in act THEN {} ELSE {"C03.unregister-of-an-unknown-task"})
+         /\ excused' = excused \ {e.t}
          /\ UNCHANGED upd
     [] e.ev = "Begin" ->
          /\ upd' = [NoUpd EXCEPT !.on = TRUE, !.origin = e.l, !.start = l, !.written = Chain(e.l)]
          /\ Flag({})
-         /\ UNCHANGED act
+         /\ UNCHANGED <<act, excused>>
     [] e.ev = "Run" ->
          LET t == e.t
              ranset == upd.ran
@@ -95,13 +98,15 @@ Step ==
                     \cup (IF upd.on /\ ~trig THEN {"C02.task-outside-the-triggered-set-ran"} ELSE {})
                     \cup (IF t \notin act THEN {"C03.a-removed-task-ran"} ELSE {})
                     \cup (IF late /\ t \notin ranset THEN {"C02.producer-ran-after-its-consumer"} ELSE {}))
+            /\ excused' = excused \ {t}
             /\ UNCHANGED act
     [] e.ev = "End" ->
          LET ranset == upd.ran
              missing == {t \in act \ ranset : Deps(t) \cap upd.written # {}}
              cyc == upd.order_bad /\ StructCyclic(ranset)
+             stale == SeqSet(e.stale) \ excused
              v == (IF e.out = "ok" /\ missing # {} THEN {"C02.triggered-task-did-not-run"} ELSE {})
-                  \cup (IF e.out = "ok" /\ Len(e.stale) > 0 THEN {"C01.expression-defined-location-is-stale"} ELSE {})
+                  \cup (IF e.out = "ok" /\ stale # {} THEN {"C01.expression-defined-location-is-stale"} ELSE {})
                   \cup (IF e.out = "RecursionError" THEN {"C01.update-fails-on-a-long-chain-of-dependants"} ELSE {})
                   \cup (IF e.out \notin {"ok", "Fault", "ValueError", "RecursionError"} THEN {"C03.assignment-failed-on-manager-state"} ELSE {})
          IN /\ upd' = NoUpd
@@ -110,6 +115,7 @@ Step ==
                             \cup {<<l, "KNOWN.struct-cycle-order">>}
                             \cup {<<l, x>> : x \in v \ {"C01.expression-defined-location-is-stale"}}
                        ELSE bad \cup {<<l, x>> : x \in v})
+            /\ excused' = (IF cyc THEN excused \cup SeqSet(e.stale) ELSE excused)
             /\ UNCHANGED act
     [] e.ev = "Idx" ->
          LET want_dt == UNION {{<<x, t>> : x \in Deps(t)} : t \in act}
@@ -122,7 +128,7 @@ Step ==
                     \cup (IF got(e.rtasks) # want_rt THEN {"C03.rtasks-support-differs-from-derived"} ELSE {})
                     \cup (IF got(e.rdeps) # want_rd THEN {"C03.rdeps-support-differs-from-derived"} ELSE {})
                     \cup (IF ~e.verify_ok THEN {"C03.verify-failed"} ELSE {}))
-            /\ UNCHANGED <<act, upd>>
+            /\ UNCHANGED <<act, upd, excused>>
 
 Next == /\ l <= Len(T.events)
         /\ Step
